@@ -76,7 +76,9 @@ func MakeFormat(s fmt.State, verb rune) (justV bool, format string) {
 	if z {
 		f.WriteByte('0')
 	}
-	if wp {
+	if wp && w != 0 {
+		// A zero width (only obtainable via '*') does not pad anything;
+		// written out, it would be parsed back as the '0' flag.
 		f.WriteString(strconv.Itoa(w))
 	}
 	if pp {
